@@ -298,7 +298,7 @@ THEOREMS = [
     "skein_machine_ops", "skein_digest", "chunking_skein", "history_refines_skein",
     "clone_independent_skein", "chunking_skein_variants",
     # source tie: block-buffer / block-padding / digest / cipher as regenerated from the pinned crate sources
-    "source_blockbuffer_match",
+    "source_blockbuffer_match", "source_traits_match",
 ]
 
 PROP = dict(
